@@ -9,7 +9,11 @@
    FACTOR THROUGH it, and provides the complete-case-analysis principles over one, two and three pair states
    (vm_compute over the explicit list of all 64 states, as C03/Proofs.v does).
    The per-property files Tie/Preds_C16.v, Preds_C17.v, Preds_C18.v, Preds_C06.v then prove, for each generated predicate,
-   "GENERATED predicate (pst ...) = MODEL predicate" and state the exact set of pair states where the two differ, if any.
+   "GENERATED predicate (pst ...) = MODEL predicate" on every pair state of the property's domain: the pair states a PAG can
+   hold ([valid_pag_ps], 18 of the 64; for C16 additionally no lone circle mark, 14 states: the eight pair kinds of MARKS with
+   an undirected edge optionally added to the six circle / directed kinds); all 64 for C06 (ADMG: no invariant on pairs).
+   States outside the domain are deliberately NOT constrained: a refactoring of /repo that changes a predicate only on mark
+   combinations no PAG can hold keeps every lemma true.
    (One file per property so that a change of a predicate of one property breaks only that property's check.) *)
 From Coq Require Import List Bool Arith.
 From PG Require Import Base.ListSet Graph.MGraph C03.PState.
@@ -37,15 +41,18 @@ Definition adj_ps (s : pstate) : bool := dir_uv s || dir_vu s || bid s || und s 
 Lemma adjacent_pst g a b : adjacent g a b = adj_ps (pst g a b).
 Proof. reflexivity. Qed.
 
-(* ---------------- restrictions used in the statements ---------------- *)
+(* ---------------- the domains of the statements ---------------- *)
+(* the pair states a PAG can hold: the invariant of property C03 (the same formula as C03/Model.valid_pag, which C03 proves
+   for every PAG built through the API without edge_type="all"): a bidirected edge excludes every other mark, not both
+   directions directed, never an arrowhead and a circle at the same end *)
+Definition valid_pag_ps (s : pstate) : bool :=
+  negb (bid s && (dir_uv s || dir_vu s || cir_uv s || cir_vu s)) &&
+  negb (dir_uv s && dir_vu s) && negb (dir_uv s && cir_uv s) && negb (dir_vu s && cir_vu s).
+Definition pag_pairs (g : mgraph) : Prop := forall a b, valid_pag_ps (pst g a b) = true.
+
 (* C16's quantifier: a circle mark never stands alone (C16/Spec.no_lone_circle) *)
 Definition no_lone_circle_ps (s : pstate) : bool :=
   (negb (cir_uv s) || cir_vu s || dir_vu s) && (negb (cir_vu s) || cir_uv s || dir_uv s).
-(* the two lone-circle states themselves *)
-Definition lone_uv : pstate := PS false false true false false false.    (* u -o v : only a circle at v *)
-Definition lone_vu : pstate := PS false false false true false false.    (* u o- v : only a circle at u *)
-(* no arrowhead and circle at the same end of one pair (C03: a PAG never holds such a pair -- valid_pag) *)
-Definition no_head_clash_ps (s : pstate) : bool := negb (dir_uv s && cir_uv s) && negb (dir_vu s && cir_vu s).
 
 (* ---------------- complete case analysis over one, two, three pair states ---------------- *)
 Lemma forall_pstate2 (P : pstate -> pstate -> bool) :
@@ -66,3 +73,37 @@ Qed.
 
 Lemma eqb_eq_bool (a b : bool) : Bool.eqb a b = true -> a = b.
 Proof. destruct a, b; simpl; congruence. Qed.
+
+(* the same, restricted to a domain D of pair states: "for all states in D" is a complete case analysis too *)
+Lemma on_dom1 (D : pstate -> bool) (f h : pstate -> bool) :
+  forallb (fun s => negb (D s) || Bool.eqb (f s) (h s)) all_pstates = true ->
+  forall s, D s = true -> f s = h s.
+Proof.
+  intros H s Hs. pose proof (forall_pstate _ H s) as H'. cbv beta in H'.
+  rewrite Hs in H'. simpl in H'. apply eqb_eq_bool. exact H'.
+Qed.
+
+Lemma on_dom2 (D : pstate -> bool) (f h : pstate -> pstate -> bool) :
+  forallb (fun s => forallb (fun t => negb (D s) || negb (D t) || Bool.eqb (f s t) (h s t)) all_pstates) all_pstates = true ->
+  forall s t, D s = true -> D t = true -> f s t = h s t.
+Proof.
+  intros H s t Hs Ht.
+  pose proof (forall_pstate2 (fun s t => negb (D s) || negb (D t) || Bool.eqb (f s t) (h s t)) H s t) as H'.
+  cbv beta in H'. rewrite Hs, Ht in H'. simpl in H'. apply eqb_eq_bool. exact H'.
+Qed.
+
+Lemma on_dom3 (D : pstate -> bool) (f h : pstate -> pstate -> pstate -> bool) :
+  forallb (fun s => forallb (fun t => forallb (fun r =>
+     negb (D s) || negb (D t) || negb (D r) || Bool.eqb (f s t r) (h s t r)) all_pstates) all_pstates) all_pstates = true ->
+  forall s t r, D s = true -> D t = true -> D r = true -> f s t r = h s t r.
+Proof.
+  intros H s t r Hs Ht Hr.
+  pose proof (forall_pstate3 (fun s t r => negb (D s) || negb (D t) || negb (D r) || Bool.eqb (f s t r) (h s t r)) H s t r) as H'.
+  cbv beta in H'. rewrite Hs, Ht, Hr in H'. simpl in H'. apply eqb_eq_bool. exact H'.
+Qed.
+
+(* how many pair states the domains contain (so that "for all states in D" is not vacuous) *)
+Lemma valid_pag_ps_count : length (filter valid_pag_ps all_pstates) = 18.
+Proof. vm_compute. reflexivity. Qed.
+Lemma marks_count : length (filter (fun s => valid_pag_ps s && no_lone_circle_ps s) all_pstates) = 14.
+Proof. vm_compute. reflexivity. Qed.
